@@ -872,7 +872,7 @@ MANIFEST = dict(
         "this step's state and is what the next step consumes, index-space kinds (beam-local for per-element "
         "gathers, flat with the right stride for extract_by_src), and the sentinel tables for finished paths and "
         "unusable slots. Necessary conditions of 'model state must follow the surviving paths' and 'unusable slots "
-        "carry -inf'; distinctness/order/score equality over search trajectories are not decided. The all-paths done test is evaluated on six reference beams (one with a very low finite score; library constants folded from config), guards of the finished-path bookkeeping three-valued, and the state handed to the model's first update_input is the caller's (backward slice interpreted with and without a state)."),
+        "carry -inf'; distinctness/order/score equality over search trajectories are not decided. The all-paths done test is evaluated on six reference beams (one with a very low finite score; library constants folded from config), guards of the finished-path bookkeeping three-valued, and the state handed to the model's first update_input is the caller's (backward slice interpreted with and without a state). The value stored as self.eos is the index counted from the front for eos = None, 0, V - 1, -1, -V (backward slice of the constructor interpreted)."),
     level_note="Trusted: python ast; torch gather/topk semantics; user language models are opaque.",
     technique="static analysis: reaching definitions (def-use versions), index-space kind checking, literal sentinel tables, argument binding; evaluation of the initial score; BeamSearch.forward interpreted over exact values with a stateful language-model leaf on a grid of 216 searches (chained scores recomputed independently, exhaustive set, batch independence); backward slice of the initial state interpreted over plain data; three-valued guard evaluation",
     design_ref="DESIGN.md section 4 C04",
